@@ -175,7 +175,9 @@ func c12Typed(w *run.Worker) {
 		// captures that match the empty string (optional group, alternation branch): stored as "", also over an existing key
 		"%{WORD:w}(?: %{INT:o1})?", "(?P<pre>x?)%{NOTSPACE:s}", "(?:%{INT:num}|%{WORD:wd})",
 		// typed captures landing on keys that already exist with another type (o1 is an int field, o2 a tag, o3 a nil field, o4 a float field)
-		"%{WORD:o1}", "%{NUMBER:o2:int}", "%{NUMBER:o3:int}", "%{WORD:o4:str}", "%{WORD:o4:bool}"}
+		"%{WORD:o1}", "%{NUMBER:o2:int}", "%{NUMBER:o3:int}", "%{WORD:o4:str}", "%{WORD:o4:bool}",
+		// literal text in front, an alternation further on: the subject may match through a later branch
+		"hello %{INT:n:int}|abc|%{NUMBER:num} big", "^3%{GREEDYDATA:g}$|^tr%{WORD:w}"}
 	texts := []any{"hello 42", "12", "3.5", "true", "abc", "  padded  ", "", " 7 x ", "1.2.3.4 ok", "99999999999999999999 big", int64(42), 2.5, false, nil}
 	for _, pat := range patterns {
 		for trim := 0; trim < 3; trim++ {
@@ -391,6 +393,17 @@ func c12Time(w *run.Worker) {
 			run1(b, &z, sitVar)
 		}
 	}
+	// an unknown zone resolved twice in one run (and so at least twice in the process): both fail alike
+	for _, z := range []string{"Mars/Base", "Nope/Zone", "+99", "Asia/Shangha1"} {
+		for _, b := range []string{"2021-01-02 03:04:05", "06/Jan/2017:16:16:37 +0000"} {
+			if !w.Take() {
+				continue
+			}
+			pt := PointSpec{Meas: "m", Fields: map[string]any{"k": b, "k2": b, "o1": int64(5)}, Time: 1600000000000000000}
+			stmts := []*rt.Node{rt.Call("default_time", Id("k"), S(z)), rt.Call("default_time", Id("k2"), S(z)), rt.Call("p", Id("k"), Id("k2"))}
+			c12Exec(w, "default_time-twice", stmts, pt, "")
+		}
+	}
 	// named zones with a summer date (daylight saving time in effect where the zone has it)
 	for _, b := range []string{"2021-07-15 12:00:00", "2021-03-28 01:30:00", "2021-10-31 01:30:00"} {
 		for _, z := range []string{"UTC", "Europe/London", "America/New_York", "Asia/Shanghai", "Asia/Kolkata", "Etc/GMT+5", "Etc/GMT-3", "America/Port-au-Prince", "Asia/Ust-Nera", "America/Blanc-Sablon", "Local", "utc"} {
@@ -410,7 +423,7 @@ func c12Time(w *run.Worker) {
 	}
 	// datetime
 	formats := []string{"ANSIC", "UnixDate", "RubyDate", "RFC822", "RFC822Z", "RFC850", "RFC1123", "RFC1123Z", "RFC3339", "RFC3339Nano", "Kitchen", "Stamp", "StampMilli", "StampMicro", "StampNano", "Nope", "", "rfc3339"}
-	epochs := []any{int64(0), int64(1), int64(1600000000), int64(1600000000123), int64(-1), 1600000000.0, 1.6e12, "1600000000", "1600000000123", "12abc", "", true, nil}
+	epochs := []any{int64(0), int64(1), int64(1600000000), int64(1600000000123), int64(-1), 1600000000.0, 1.6e12, 1638253518.5, 1638253518999.75, "1638253518.5", "1600000000", "1600000000123", "12abc", "", true, nil}
 	for _, f := range formats {
 		for _, prec := range []string{"s", "ms", "us", ""} {
 			for _, ep := range epochs {
@@ -578,7 +591,7 @@ func init() {
 		Level: "model_checking",
 		Rule: "(1) every placement of up to 3 add_pattern definitions (one referring to the other two) and a grok call using a local, a dependent or a global pattern over the 8 slots of a 3-level block skeleton (top, if, nested if/else, else, for body, after), definition before or after the use: load verdict and run-time captures; a name defined at the top and again in each of the 8 slots, used by grok / a composite definition in each slot, before or after the inner definition and once more after all blocks; " +
 			"(2) 14 patterns (all capture types, convertible and inconvertible text, pattern capturing into its own subject) x trim_space {absent,true,false} x 6 subject situations x 14 subject values; " +
-			"(3) default_time on the 66 documented layouts + 6 house layouts + non-timestamps, every house layout written for 5 instants x {padded, unpadded day/hour} x 6 numeric zones (positive, negative, half-hour) x 3 zone arguments, 4 base timestamps x 21 zone arguments (fixed-offset labels, IANA names, invalid) x subject situations, every numeric label of the documented table (DST-free ones in January, southern ones in July); datetime over 18 formats x 4 precisions x 13 epoch values x 3 situations; " +
+			"(3) default_time on the 66 documented layouts + 6 house layouts + non-timestamps, every house layout written for 5 instants x {padded, unpadded day/hour} x 6 numeric zones (positive, negative, half-hour) x 3 zone arguments, 4 base timestamps x 21 zone arguments (fixed-offset labels, IANA names, invalid) x subject situations, every numeric label of the documented table (DST-free ones in January, southern ones in July); datetime over 18 formats x 4 precisions x 16 epoch values (incl. floats with a fractional part) x 3 situations; " +
 			"(4) xml: 20 documents (well-formed, and malformed in ways a lenient decoder tolerates) x 13 XPath queries x 4 destination spellings x subject situations; (5) sql_cover: 20 strings x 5 situations, all ordered pairs of 6 backslash-bearing statements in one run; oracle: whole final point incl. time, probe trace (grok's boolean), load verdict",
 		Assumptions: []string{"grok, xmlquery/xpath, dateparse, time, obfuscate are the trusted engines, called directly by the reference", "zone labels are checked against fixed offsets for DST-free zones / winter dates; DST-in-January labels, the CST label and year-less layouts are unspecified cells; IANA names incl. UTC are also run with summer and DST-switch dates", "the text of the failure note after the prefix `time convert failed` is not compared"},
 		Run:            c12Run,
